@@ -1058,7 +1058,9 @@ func (c *wfChecker) typeInstr(b *ir.BasicBlock, instr ir.Instruction) {
 			if e == nil {
 				continue
 			}
-			c.same(b, instr, "edge", tt(e), x.Type(), fmt.Sprintf("edge %d (%s)", k, wfValueString(e)))
+			if !types.Identical(tt(e), x.Type()) {
+				c.same(b, instr, "edge", tt(e), x.Type(), fmt.Sprintf("edge %d (%s)", k, wfValueString(e)))
+			}
 		}
 
 	case *ir.Call:
@@ -1106,7 +1108,7 @@ func (c *wfChecker) typeInstr(b *ir.BasicBlock, instr ir.Instruction) {
 		})
 		c.expect(b, instr, r, "pointer", "address operand has non-pointer type %s", tt(x.X))
 		if r == wfYes {
-			c.same(b, instr, "elem", x.Type(), elem, "loaded type vs pointee of "+tt(x.X).String())
+			c.same(b, instr, "elem", x.Type(), elem, "loaded type vs pointee of the address operand")
 		}
 
 	case *ir.Store:
@@ -1119,7 +1121,7 @@ func (c *wfChecker) typeInstr(b *ir.BasicBlock, instr ir.Instruction) {
 		})
 		c.expect(b, instr, r, "pointer", "address operand has non-pointer type %s", tt(x.Addr))
 		if r == wfYes && x.Val != nil {
-			c.same(b, instr, "elem", tt(x.Val), elem, "stored value vs pointee of "+tt(x.Addr).String())
+			c.same(b, instr, "elem", tt(x.Val), elem, "stored value vs pointee of the address operand")
 		}
 
 	case *ir.ChangeType:
@@ -1225,7 +1227,9 @@ func (c *wfChecker) typeInstr(b *ir.BasicBlock, instr ir.Instruction) {
 		} else {
 			for i, bd := range x.Bindings {
 				if bd != nil {
-					c.same(b, instr, "binding", tt(bd), f.FreeVars[i].Type(), fmt.Sprintf("binding %d vs free variable %s", i, f.FreeVars[i].Name()))
+					if !types.Identical(tt(bd), f.FreeVars[i].Type()) {
+						c.same(b, instr, "binding", tt(bd), f.FreeVars[i].Type(), fmt.Sprintf("binding %d vs free variable %s", i, f.FreeVars[i].Name()))
+					}
 				}
 			}
 		}
@@ -1275,7 +1279,7 @@ func (c *wfChecker) typeInstr(b *ir.BasicBlock, instr ir.Instruction) {
 			} else if p, ok := x.Type().Underlying().(*types.Pointer); !ok {
 				c.tfail(b, instr, "pointer", "type %s is not a pointer", x.Type())
 			} else {
-				c.same(b, instr, "fieldtype", p.Elem(), s.Field(x.Field).Type(), "pointee vs type of field "+s.Field(x.Field).Name())
+				c.same(b, instr, "fieldtype", p.Elem(), s.Field(x.Field).Type(), "pointee vs type of the field")
 			}
 		}
 
@@ -1292,7 +1296,7 @@ func (c *wfChecker) typeInstr(b *ir.BasicBlock, instr ir.Instruction) {
 			if x.Field < 0 || x.Field >= s.NumFields() {
 				c.tfail(b, instr, "index", "field index %d out of range [0,%d)", x.Field, s.NumFields())
 			} else {
-				c.same(b, instr, "fieldtype", x.Type(), s.Field(x.Field).Type(), "result vs type of field "+s.Field(x.Field).Name())
+				c.same(b, instr, "fieldtype", x.Type(), s.Field(x.Field).Type(), "result vs type of the field")
 			}
 		}
 
@@ -1320,7 +1324,7 @@ func (c *wfChecker) typeInstr(b *ir.BasicBlock, instr ir.Instruction) {
 			if p, ok := x.Type().Underlying().(*types.Pointer); !ok {
 				c.tfail(b, instr, "pointer", "type %s is not a pointer", x.Type())
 			} else {
-				c.same(b, instr, "elem", p.Elem(), elem, "pointee vs element type of "+tt(x.X).String())
+				c.same(b, instr, "elem", p.Elem(), elem, "pointee vs element type of the operand")
 			}
 		}
 		if x.Index != nil {
@@ -1351,7 +1355,7 @@ func (c *wfChecker) typeInstr(b *ir.BasicBlock, instr ir.Instruction) {
 		})
 		c.expect(b, instr, r, "operand", "operand type %s is not an array or string", tt(x.X))
 		if r == wfYes {
-			c.same(b, instr, "elem", x.Type(), elem, "result vs element type of "+tt(x.X).String())
+			c.same(b, instr, "elem", x.Type(), elem, "result vs element type of the operand")
 		}
 		if x.Index != nil {
 			c.expect(b, instr, wfAll(tt(x.Index), wfIsInteger), "index", "index has non-integer type %s", tt(x.Index))
@@ -1433,7 +1437,7 @@ func (c *wfChecker) typeInstr(b *ir.BasicBlock, instr ir.Instruction) {
 			c.tfail(b, instr, "index", "index %d out of range of %s", x.Index, tup)
 			return
 		}
-		c.same(b, instr, "component", x.Type(), tup.At(x.Index).Type(), fmt.Sprintf("result vs component %d", x.Index))
+		c.same(b, instr, "component", x.Type(), tup.At(x.Index).Type(), "result vs selected component")
 
 	case *ir.If:
 		// "depending on the boolean Cond"
@@ -1588,6 +1592,16 @@ func (c *wfChecker) slice(b *ir.BasicBlock, x *ir.Slice) {
 		return
 	}
 	s := x.X.Type()
+	// the element type of the result, seen through a type parameter's terms (the documentation says
+	// "(possibly named) *types.Slice"; a composite literal of type parameter type S ~[]E yields S)
+	resElem := func() (types.Type, wfTri) {
+		return wfCommon(x.Type(), func(u types.Type) types.Type {
+			if sl, ok := u.(*types.Slice); ok {
+				return sl.Elem()
+			}
+			return nil
+		})
+	}
 	terms, known := wfTerms(s)
 	if !known || wfIsTypeParam(s) {
 		c.st.Skipped++
@@ -1596,23 +1610,25 @@ func (c *wfChecker) slice(b *ir.BasicBlock, x *ir.Slice) {
 		case *types.Basic:
 			if !wfIsString(u) {
 				c.tfail(b, x, "operand", "operand type %s is not a string, slice or pointer to array", s)
-			} else if !wfIsString(x.Type().Underlying()) {
-				c.tfail(b, x, "result", "slicing a string yields %s", x.Type())
+			} else {
+				c.expect(b, x, wfAll(x.Type(), wfIsString), "result", "slicing a string yields %s", x.Type())
 			}
 		case *types.Slice:
-			if r, ok := x.Type().Underlying().(*types.Slice); !ok {
-				c.tfail(b, x, "result", "type %s is not a slice", x.Type())
-			} else {
-				c.same(b, x, "elem", r.Elem(), u.Elem(), "element type")
+			e, r := resElem()
+			c.expect(b, x, r, "result", "type %s is not a slice", x.Type())
+			if r == wfYes {
+				c.same(b, x, "elem", e, u.Elem(), "element type")
 			}
 		case *types.Pointer:
 			a, ok := u.Elem().Underlying().(*types.Array)
 			if !ok {
 				c.tfail(b, x, "operand", "operand type %s is not a string, slice or pointer to array", s)
-			} else if r, ok := x.Type().Underlying().(*types.Slice); !ok {
-				c.tfail(b, x, "result", "type %s is not a slice", x.Type())
-			} else {
-				c.same(b, x, "elem", r.Elem(), a.Elem(), "element type")
+				break
+			}
+			e, r := resElem()
+			c.expect(b, x, r, "result", "type %s is not a slice", x.Type())
+			if r == wfYes {
+				c.same(b, x, "elem", e, a.Elem(), "element type")
 			}
 		default:
 			c.tfail(b, x, "operand", "operand type %s is not a string, slice or pointer to array", s)
@@ -1762,7 +1778,7 @@ func (c *wfChecker) callCommon(b *ir.BasicBlock, instr ir.Instruction, cc *ir.Ca
 				c.tfail(b, instr, "result", "tuple %s for %d results", tup, res.Len())
 			} else {
 				for i := 0; i < res.Len(); i++ {
-					c.same(b, instr, "result", tup.At(i).Type(), res.At(i).Type(), fmt.Sprintf("component %d", i))
+					c.same(b, instr, "result", tup.At(i).Type(), res.At(i).Type(), "component of the result tuple")
 				}
 			}
 		}
@@ -1774,7 +1790,9 @@ func (c *wfChecker) args(b *ir.BasicBlock, instr ir.Instruction, args []ir.Value
 		if a == nil {
 			continue
 		}
-		c.assignable(b, instr, "arg", a.Type(), sig.Params().At(i).Type(), fmt.Sprintf("argument %d", i+off))
+		if !types.Identical(a.Type(), sig.Params().At(i).Type()) {
+			c.assignable(b, instr, "arg", a.Type(), sig.Params().At(i).Type(), fmt.Sprintf("argument %d", i+off))
+		}
 	}
 	// "For all calls to variadic functions (Signature().Variadic()), the last element of Args is a slice."
 	if sig.Variadic() && len(args) > 0 && args[len(args)-1] != nil {
